@@ -347,6 +347,7 @@ func C08(tier string) int {
 	wg.Wait()
 	rep.Set("tracked_spawns", vsync.SpawnCount())
 	rep.Count("traces_validated_against_impl", rep.Get("transitions"))
+	c08TxCompleteSchedules(rep, thorough)
 	return rep.Finish()
 }
 
